@@ -11,13 +11,18 @@ tier=${1:-${VERIF_TIER:-quick}}; [ $# -gt 0 ] && shift
 case "$prop" in
   C01|C02|C03|C04|C17) eng=chain ;;
   C05) eng=ffldb ;;
-  C06|C07) eng=script ;;
-  C08|C15|C16|C20) eng=codec ;;
-  C09|C13) eng=pow ;;
+  C06) eng=script ;;
+  C07) eng=sighash ;;
+  C08) eng=wire ;;
+  C09) eng=pow ;;
   C10|C12) eng=mempool ;;
+  C13) eng=accounting ;;
   C14) eng=versionbits ;;
+  C15) eng=records ;;
+  C16) eng=addr ;;
   C18) eng=peer ;;
   C19) eng=v2 ;;
+  C20) eng=filters ;;
   *) echo "unknown property $prop" >&2; exit 2 ;;
 esac
 export GOFLAGS=-mod=mod GOPROXY=off
